@@ -37,7 +37,7 @@ let zi (i : int) : M.z = z_of_big (Z.of_int i)
 (* token stream *)
 type toks = { mutable l : string list }
 let toks_of_line (s : string) : toks =
-  { l = Stdlib.List.filter (fun x -> x <> "") (String.split_on_char ' ' (String.trim s)) }
+  { l = Stdlib.List.filter (fun x -> x <> "") (Stdlib.String.split_on_char ' ' (Stdlib.String.trim s)) }
 let next (t : toks) : string =
   match t.l with [] -> failwith "missing token" | x :: r -> t.l <- r; x
 let nz (t : toks) : M.z = z_of_big (Z.of_string (next t))
